@@ -832,7 +832,27 @@ def e2e_case(ctx, recorder, form, expr, clo, loc, glo, label):
                 return None
             if cause == 'NameError':
                 ctx.count('e2e:loud:ExprEvalError(NameError)'); return None      # loud; e.g. a lambda body cannot see eval's locals
-            return {'what': 'Pony fails to evaluate an expression Python evaluates', 'python': typed(exp[1]), 'pony': str(e)[:200]}
+            fail = {'what': 'Pony fails to evaluate an expression Python evaluates', 'python': typed(exp[1]), 'pony': str(e)[:200]}
+            # is it an operand Python skips (untaken branch of a conditional expression, short-circuited operand of and/or) that Pony
+            # evaluates on its own, because the enclosing expression could not be external as a whole?
+            m = re.match(r'`(.*)` raises \w+:', str(e), flags=re.S)
+            back = reparse(m.group(1)) if m else None
+            if back is not None:
+                whole = ast.parse(expr, mode='eval').body
+                nd = normal_dump(back, fold=True)
+                if nd != normal_dump(whole, fold=True):
+                    env = dict(G); env.update(clo); env.update(loc)
+                    for n in ast.walk(whole):
+                        if isinstance(n, ast.expr) and not isinstance(n, (ast.Starred, ast.Slice)) and normal_dump(n, fold=True) == nd:
+                            try:
+                                eval(compile(ast.fix_missing_locations(ast.Expression(body=copy.deepcopy(n))), '<sub>', 'eval'), env)
+                            except Exception as e2:
+                                if type(e2).__name__ == cause:
+                                    fail['family'] = 'lazy-operand-evaluated-eagerly'
+                                    fail['what'] = ('an operand Python does not evaluate (untaken branch / short-circuited operand) is evaluated '
+                                                    'on its own as a separate parameter and its exception is raised')
+                            break
+            return fail
         smp = ctx.extra.setdefault('e2e_loud_samples', {}).setdefault(type(e).__name__, [])
         if len(smp) < 4: smp.append({'form': form, 'expr': expr, 'msg': str(e)[:160]})
         if not recorder:
@@ -978,9 +998,14 @@ def e2e(ctx):
         expr = te.i(d) if rng.random() < .55 else te.s(d)
         for form in rng.sample(forms, 2 if not ctx.thorough else 3):
             one(form, expr, 'random')
+    report_e2e_failures(ctx, fails)
+
+
+def report_e2e_failures(ctx, fails):
     seen = set()
     for f in fails:
         key = 'e2e:%s:%s' % (f['form'] if f['form'] in ('str', 'lamstr') else 'bytecode', f['expr'])
+        if f.get('family'): key = 'e2e:' + f['family']
         try:
             et = ast.parse(f['expr'], mode='eval')
             if any(isinstance(n, ast.Starred) and any(isinstance(x, ast.Lambda) for x in ast.walk(n)) for n in ast.walk(et)):
@@ -1062,11 +1087,89 @@ def run(ctx):
             ctx.count('note:outside:%s -> %s' % (s, r['error']))
     parser_tie(ctx, ctx.scale(500, 12000))
     e2e(ctx)
+    lazy_stream(ctx)
     xscope(ctx)
     ctx.extra['lean_parse_mismatch'] = ctx.extra.get('lean_parse_mismatch', [])[:5]
 
 
+LAZY_WHOLE = [     # the whole expression is external: Python's laziness must be kept (the skipped operand would raise)
+    'a if k < 50 else lst[99]', "a if k < 50 else d['missing']", 'a if k < 50 else 1 // (k - k)', 'a if k < 50 else o.missing',
+    'lst[99] if k > 50 else b', "d['missing'] if k > 50 else b", '(k < 50 or lst[99]) + a', '(k > 50 and 1 // (k - k)) + a',
+    "(a if k < 50 else GD['nope']) + (b if k < 50 else GO.nope)", 'gf(a if k < 50 else lst[99], y=(k < 50 or o.missing))',
+    "f\"{a if k < 50 else lst[99]}\"", "(lst[99] if k > 50 else s) + 'x'",
+]
+LAZY_SPLIT = [     # another operand depends on the query variable: the expression cannot be external as a whole
+    ('IndexError', 'p.x == (lst[99] if k > 50 else p.x)'), ('KeyError', "p.x == (d['missing'] if k > 50 else p.x)"),
+    ('ZeroDivisionError', 'p.x == (1 // (k - k) if k > 50 else p.x)'), ('AttributeError', 'p.x == (o.missing if k > 50 else p.x)'),
+    ('IndexError', 'k < 50 or p.x == lst[99]'), ('KeyError', "k > 50 and p.x == d['missing']"),
+    ('IndexError', 'p.x == (p.x if k < 50 else lst[99])'),
+]
+
+
+def lazy_stream(ctx):
+    """conditional expressions / and / or whose operand that Python skips would raise, in every query form"""
+    rec = install_recorder()
+    rng = random.Random(ctx.seed * 911 + 3)
+    forms = ['gen', 'lam', 'str', 'lamstr', 'filter']
+    fails = []
+    for expr in LAZY_WHOLE:
+        for form in forms:
+            for _ in range(ctx.scale(1, 3)):
+                clo, loc, glo = scope_values(rng)
+                f = e2e_case(ctx, rec, form, expr, clo, loc, glo, 'lazy-whole')
+                if f:
+                    f.update({'form': form, 'expr': expr, 'scope': {k: typed(v) for k, v in list(clo.items()) + list(loc.items()) if isinstance(v, (int, str))}})
+                    fails.append(f)
+    report_e2e_failures(ctx, fails)
+    # split case: built directly, the condition mentions the query variable
+    G = e2e_setup()
+    from pony.orm.core import ExprEvalError
+    for cause, cond in LAZY_SPLIT:
+        for form in forms:
+            clo, loc, glo = scope_values(rng)
+            G.update(glo)
+            q = {'gen': 'select(p for p in P if %s)', 'lam': 'P.select(lambda p: %s)', 'str': 'select(%r)' % ('p for p in P if %s' % cond),
+                 'lamstr': 'P.select(%r)' % ('lambda p: %s' % cond), 'filter': 'P.select().filter(lambda p: %s)'}[form]
+            if form in ('gen', 'lam', 'filter'): q = q % cond
+            src = TEMPLATE % {'expr': 'None', 'query': q}
+            ns = {}
+            exec(compile(src, '<c04-lazy-%d>' % len(_keep), 'exec'), G, ns)
+            run_ = ns['outer'](**clo); _keep.append(run_)
+            rec.clear(); rec.trees = []
+            with G['db_session']:
+                exp, res = run_(**loc)
+            ctx.case(['lazy-split', form, cond], kind='lazy-split:' + form)
+            if res[0] == 'err' and isinstance(res[1], ExprEvalError):
+                got = type(res[1].cause).__name__
+                ctx.count('lazy-split:ExprEvalError:' + got)
+                # Python evaluates the query for every row without raising: the operand is in a position it skips
+                ctx.violation('an operand Python does not evaluate (untaken branch / short-circuited operand) is evaluated on its own as a '
+                              'separate parameter and its exception is raised',
+                              {'form': form, 'condition': cond, 'skipped_operand_raises': cause}, observed=str(res[1])[:200],
+                              expected='no exception: the operand is never evaluated', key='e2e:lazy-operand-evaluated-eagerly')
+            elif res[0] == 'err':
+                ctx.count('lazy-split:loud:' + type(res[1]).__name__)
+            else:
+                ctx.count('lazy-split:no-error')
+
+
 def replay(ctx, data):
+    inp = data.get('input') if isinstance(data, dict) else None
+    if isinstance(inp, dict) and 'expr' in inp and 'form' in inp:
+        # an end-to-end failure: the same expression, every query form, many scopes
+        rec = install_recorder()
+        rng = random.Random(ctx.seed + 99)
+        fails = []
+        for form in ['gen', 'lam', 'str', 'lamstr', 'filter']:
+            for _ in range(60):
+                clo, loc, glo = scope_values(rng)
+                try: f = e2e_case(ctx, rec, form, inp['expr'], clo, loc, glo, 'replay')
+                except RecursionError: continue
+                if f:
+                    f.update({'form': form, 'expr': inp['expr'], 'scope': {k: typed(v) for k, v in list(clo.items()) + list(loc.items()) if isinstance(v, (int, str))}})
+                    fails.append(f)
+        report_e2e_failures(ctx, fails)
+        return
     run(ctx)
 
 
